@@ -26,6 +26,9 @@ impl Prop for C07 {
         for _ in 0..(if th { 3 } else { 1 }) { v.push(case(&[("kind", "batch".into()), ("given", "payload".into()), ("n", (if th { 400 } else { 150 }).to_string()), ("plen", "13".into()), ("seed", rng.next().to_string())])); }
         v.push(case(&[("kind", "generate".into()), ("n", (if th { 5000 } else { 300 }).to_string())]));
         for what in ["pass-encrypt", "encrypt", "key-generate", "change-pass", "change-pass-same"] { v.push(case(&[("kind", "cli".into()), ("what", what.into()), ("n", (if th { 120 } else { 16 }).to_string()), ("seed", rng.next().to_string())])); }
+        // one invocation, several inputs (more FILE arguments than the usage line names, with and without -o): whatever the tool makes of it —
+        // a usage error today — every encrypted file a single invocation leaves behind carries its own salt / ephemeral key
+        for what in ["pass-encrypt", "encrypt"] { for shape in ["two", "three", "two-o", "dup"] { v.push(case(&[("kind", "cli-multi".into()), ("what", what.into()), ("shape", shape.into()), ("seed", rng.next().to_string())])); } }
         // a sink that is briefly unavailable (one failing write somewhere in the stream, every error kind in turn): whenever the encryption reports
         // success all the same, the records in the output carry the counters 0,1,2,… once each — a restarted loop would seal two chunks under nonce 0
         for mode in ["key", "pass"] { for plen in [65536usize * 2 + 5, 65536 * 3] { v.push(case(&[("kind", "busy-sink".into()), ("mode", mode.into()), ("plen", plen.to_string()), ("seed", rng.next().to_string())])); } }
@@ -134,6 +137,34 @@ impl Prop for C07 {
                     if !b.insert(fresh2) { o.oracle_fail = Some(("fresh-randomness-per-invocation".into(), format!("`kestrel {}` run {} times with identical inputs: invocation {} repeated an earlier {}", args.join(" "), n, i, match what { "encrypt" => "file key", "key-generate" => "private key", _ => "ciphertext" }))); return o; }
                 }
                 o.impl_obs = format!("{} x `{}`: {} / {} distinct fresh values", n, what, a.len(), b.len());
+            }
+            "cli-multi" => {
+                use crate::cli::*;
+                let fx = fixtures(); let what = get(c, "what"); let shape = get(c, "shape");
+                let mut rng = Rng::new(get(c, "seed").parse().unwrap_or(0));
+                let kr = keyring(&[(&fx.alice, true), (&fx.bob, true)]).into_bytes();
+                let mut files: Vec<(String, Vec<u8>)> = vec![("a.bin".into(), rng.bytes(20)), ("b.bin".into(), rng.bytes(20)), ("c.bin".into(), rng.bytes(70000)), ("kr".into(), kr)];
+                if shape == "dup" { files[1].1 = files[0].1.clone(); }
+                let names: Vec<&str> = match shape { "three" => vec!["a.bin", "b.bin", "c.bin"], _ => vec!["a.bin", "b.bin"] };
+                let mut args: Vec<String> = if what == "encrypt" { sv(&["enc"]) } else { sv(&["pass", "enc"]) };
+                args.extend(names.iter().map(|x| x.to_string()));
+                if what == "encrypt" { args.extend(sv(&["-t", "bob", "-f", "alice", "-k", "kr"])); }
+                if shape == "two-o" { args.extend(sv(&["-o", "out.bin"])); }
+                args.push("--env-pass".into());
+                let world = World { files: files.clone(), env: vec![("KESTREL_PASSWORD".into(), if what == "encrypt" { fx.alice.pw.into() } else { "same".into() })], stdin: vec![] };
+                let obs = run_kestrel(&world, &args);
+                o.validated += 1; o.nontrivial = Some(format!("cli-multi/{}/{}", what, shape));
+                // every file that was not there before and starts with the format's magic
+                let magic: &[u8] = if what == "encrypt" { &[0x65, 0x67, 0x6b, 0x10] } else { &[0x65, 0x67, 0x6b, 0x20] };
+                let made: Vec<&(String, Vec<u8>)> = obs.files.iter().filter(|(n, b)| !files.iter().any(|(m, _)| m == n) && b.len() >= 36 && &b[..4] == magic).collect();
+                o.tags.push(format!("{} FILE arguments: exit {:?}, {} encrypted files written", names.len(), obs.exit, made.len()));
+                o.impl_obs = format!("exit={:?} encrypted files: {:?}", obs.exit, made.iter().map(|(n, b)| (n.clone(), b.len())).collect::<Vec<_>>()); o.model_obs = "pairwise distinct salts / ephemeral keys".into();
+                let mut seen: Vec<(&String, &[u8])> = vec![];
+                for (n, b) in made.iter().map(|x| (&x.0, &x.1)) {
+                    let fresh = &b[4..36];
+                    if let Some((other, _)) = seen.iter().find(|(_, f)| *f == fresh) { o.oracle_fail = Some(("fresh-randomness-per-file".into(), format!("one invocation `kestrel {}` wrote {} and {} with the same {} {} — two encryptions under one {}", args.join(" "), other, n, if what == "encrypt" { "ephemeral key" } else { "salt" }, hex(fresh), if what == "encrypt" { "handshake" } else { "password-derived key and nonce sequence" }))); return o; }
+                    seen.push((n, fresh));
+                }
             }
             "generate" => {
                 let n = getn(c, "n");
